@@ -174,7 +174,7 @@ PROPS = {
         runs={"quick": [["rest-C17", "--scenarios", "12", "--ops", "120"]], "thorough": [["rest-C17", "--scenarios", "120", "--ops", "400"]]},
         trusted=REST_TRUST,
         statement="REST refinement, frame, restart = identity, status classes",
-        partial="the REST model is the specification; proved: insert_binds_records / update_changes_one_document / delete_removes_one_document (the handlers' effect on a collection's metadata map is the C01 specification: bind, rebind one, unbind one; not-live ids are 404 and change nothing), frame (one collection per request), unknown collection = 404, create = 201, restart is the identity given C02; over whole sessions (Lemmas/RestSession.lean): restart_anywhere_in_a_session (serving qs1, restarting, serving qs2 = serving qs1 ++ qs2) and session_state_depends_on_accepted_requests_only. The refinement 'real server = model' is the request-by-request correspondence (status + canonical payload incl. listings after kill -9/restart), not a theorem; vector-search result lists are compared by status only (their content is C03/C04)",
+        partial="the REST model is the specification; proved: insert_binds_records / update_changes_one_document / delete_removes_one_document (the handlers' effect on a collection's metadata map is the C01 specification: bind, rebind one, unbind one; not-live ids are 404 and change nothing), frame (one collection per request), unknown collection = 404, create = 201, restart is the identity given C02; over whole sessions (Lemmas/RestSession.lean): restart_anywhere_in_a_session (serving qs1, restarting, serving qs2 = serving qs1 ++ qs2) session_state_depends_on_accepted_requests_only and frame_over_a_session (a session of n requests changes at most n collections). The refinement 'real server = model' is the request-by-request correspondence (status + canonical payload incl. listings after kill -9/restart), not a theorem; vector-search result lists are compared by status only (their content is C03/C04)",
     ),
     "C18": dict(
         modules=["Syzgy.Props.C18"], ties=["Rest"],
